@@ -35,7 +35,7 @@ func checkC05(c *Ctx) {
 	c.Rule("C05-R6", "an input chunk queued for the parser goroutine owns its backing array (allocated per chunk): queued input cannot be overwritten by a later read")
 	c.Rule("C05-R7", "ChannelEvents holds at most one event: after receiving from the event queue it sends that event on the caller's channel (or returns) before it can receive again")
 	c.Rule("C05-R9", "the escape timer is re-armed only after Stop, and a Stop that reports 'already fired' drains the tick: a stale tick would be taken for a fresh timeout and flush a half-received sequence held back behind a full queue")
-	c.Expect("C05-R9", 2)
+	c.Expect("C05-R9", 4)
 	c.Rule("C05-R10", "Fini always closes the quit channel: the close is unconditional in the function Fini runs once")
 	c.Expect("C05-R10", 1)
 	c.Rule("C05-R11", "bytes a read returned are queued whatever error came with them (io.Reader: process n > 0 before the error): the send of chunk[:n] is not decided by the read's error")
@@ -44,6 +44,8 @@ func checkC05(c *Ctx) {
 	c.Expect("C05-R12", 6)
 	c.Rule("C05-R13", "StopQ hands out the channel that only Fini closes (pollers, PostEventWait and ChannelEvents end on it): nothing reachable from Suspend closes that field, Fini's path does")
 	c.Expect("C05-R13", 3)
+	c.Rule("C05-R14", "every delivered event is a complete Event: what a parser appends to the event list is the result of a constructor (or of a module function all of whose returns are), never a pointer that may be nil inside a non-nil interface")
+	c.Expect("C05-R14", 1)
 	c.Rule("C05-R8", "no producer of events looks at the fill level of an event queue (len/cap) to decide whether to deliver: that is dropping by another name")
 	c.Expect("C05-R6", 1)
 	c.Expect("C05-R8", 1)
@@ -81,6 +83,7 @@ func checkC05(c *Ctx) {
 		checkReadBytesQueued(c, p, "C05-R11")
 		checkConsumedDelivers(c, p, "C05-R12", nil)
 		checkStopQIsQuit(c, p, "C05-R13", "tScreen")
+		checkAppendedEventsConstructed(c, p, "C05-R14")
 		checkStopQIsQuit(c, p, "C05-R13", "simscreen")
 	}
 }
@@ -723,6 +726,15 @@ func checkTimerDiscipline(c *Ctx, p *Prog, rule string) {
 				}
 			}
 			c.Check(ok2, rule, key, p.pos(call.Pos()), detail)
+			// whatever is left in the buffer gets a deadline: the re-arm depends on the buffer being
+			// non-empty, never on what the leftover looks like (key sequences need not start with ESC)
+			content := ""
+			for _, a := range guardsAt(call.Block()) {
+				if strings.Contains(a.L, "Bytes(") || strings.Contains(a.R, "Bytes(") {
+					content += a.String() + "; "
+				}
+			}
+			c.Check(content == "", rule, key+":armed-for-any-leftover", p.pos(call.Pos()), "the re-arm does not inspect the buffered bytes "+content)
 		})
 	}
 	if n == 0 {
